@@ -15,6 +15,7 @@ ASSUMPTIONS = [
     "keys are abstract ids; the harness maps 8 (topic, partition, base) triples, some with ':' in the topic, to ids",
 ]
 NKEYS = 8
+BUILDS = {"h": ("root", "./cmd/verif_c09", ["C09"])}
 
 
 def gen_ops(rng, n, cap):
@@ -68,10 +69,10 @@ def run_case(ck, binary, ops, tag):
 
 
 def run(ck):
-    binary, log = ck.go_build("root", "./cmd/verif_c09", ["C09"])
-    if binary is None:
-        ck.broke("correspondence harness build (cmd/verif_c09 + pkg/cache overlay)", log)
+    bins = ck.build_all()
+    if bins is None:
         return
+    binary = bins["h"]
     ncases = 40 if ck.quick() else 400
     nops = 120 if ck.quick() else 300
     ck.cov["rule"] = ("op sequences (new/set/get) over 8 keys with sizes around the capacity, generated from VERIF_SEED; "
@@ -140,9 +141,10 @@ def _hunt(ck, binary):
 def replay(ck, path):
     import json
     rep = json.load(open(path))
-    binary, log = ck.go_build("root", "./cmd/verif_c09", ["C09"])
-    if binary is None:
-        ck.broke("harness build", log); return
+    bins = ck.build_all()
+    if bins is None:
+        return
+    binary = bins["h"]
     ops = rep["ops"]
     fn = ck.path("replay.txt"); open(fn, "w").write("\n".join(ops) + "\n")
     rc, out, _ = ck.run_bin(binary, stdin_path=fn)
